@@ -1970,13 +1970,21 @@ func deserialize_vector_u64(deserializer serde.Deserializer) ([]uint64, error) {
 	if err != nil {
 		return nil, err
 	}
-	obj := make([]uint64, length)
-	for i := range obj {
+	// the length comes from the input: do not allocate for more elements than have actually been decoded
+	obj := make([]uint64, 0, minUint64(length, 1024))
+	for i := uint64(0); i < length; i++ {
 		if val, err := deserializer.DeserializeU64(); err == nil {
-			obj[i] = val
+			obj = append(obj, val)
 		} else {
 			return nil, err
 		}
 	}
 	return obj, nil
+}
+
+func minUint64(a, b uint64) uint64 {
+	if a < b {
+		return a
+	}
+	return b
 }
